@@ -62,6 +62,10 @@ def slotV : Slot → V
 def seatsDefault1 (n : Option V) : Except Err Nat :=
   match n with
   | Option.none => pure 1
+  | some (.num r) =>
+      -- a negative seat count (left by an over-awarding unused-votes stage) indexes from the end in Python:
+      -- not covered by `getNBest`
+      if r.den = 1 ∧ r.num < 0 then throw eUnsupported else (V.num r).asNat
   | some v => v.asNat
 
 /-- Plurality.evaluate(votes, n_seats=1) = get_n_best (core.py L1382-1399, L104-140).
